@@ -22,56 +22,63 @@ CONTIG = {2, 7}
 ZERO = {3}
 
 
+def gen_mut(rng, r, U, contig=False, zero=False):
+    """one applicable mutating operation on the abstract complex r (applied to r); None if the draw is not applicable"""
+    val = (lambda: 0) if zero else (lambda: rng.randrange(0, 5))
+    x = rng.random()
+    line = None
+    if x < 0.40:
+        k = rng.choice([1, 2, 2, 3, 3, 4]) if U >= 4 else rng.choice([1, 2, 3])
+        s = sorted(rng.sample(range(U), min(k, U)))
+        f = val()
+        line = 'insf %d %s' % (f, ' '.join(map(str, s))); r.insf(f, s)
+    elif x < 0.55:
+        # single simplex whose facets are all present, value not below them
+        cands = []
+        for k in (1, 2, 3):
+            for s in itertools.combinations(range(U), k):
+                if all(s[:i] + s[i + 1:] in r.c for i in range(len(s))) or k == 1:
+                    cands.append(s)
+        if not cands: return None
+        s = rng.choice(cands)
+        lo = max([r.c[s[:i] + s[i + 1:]] for i in range(len(s))], default=0) if len(s) > 1 else 0
+        hi = min([v for t, v in r.c.items() if set(s) < set(t)], default=4)
+        if lo > hi: return None
+        f = 0 if zero else rng.randrange(lo, hi + 1)
+        line = 'ins %d %s' % (f, ' '.join(map(str, s))); r.ins(f, s)
+    elif x < 0.60:
+        vs = sorted(rng.sample(range(U), rng.randrange(1, U + 1)))
+        if contig: vs = list(range(U))
+        f = 0 if (zero or contig) else val()
+        # keep monotone: a new vertex must not get a value above its (absent) cofaces - new vertices have none
+        line = 'batch %d %s' % (f, ' '.join(map(str, vs))); r.batch(f, vs)
+    elif x < 0.78:
+        mx = [s for s in r.maximal() if not (contig and len(s) == 1)]
+        if not mx: return None
+        s = rng.choice(mx)
+        line = 'rmmax ' + ' '.join(map(str, s)); r.rmmax(s)
+    elif x < 0.87:
+        f = rng.randrange(0, 5)
+        line = 'prunef %d' % f; r.prunef(f)
+    elif x < 0.95:
+        d = rng.choice([0, 1, 1, 2, 3])
+        line = 'pruned %d' % d; r.pruned(d)
+    else:
+        if contig: return None
+        line = 'clear'; r.clear()
+    return line
+
+
 def gen_case(rng, contig=False, zero=False, maxlen=14, obs_p=0.6):
     U = rng.choice([3, 4, 4, 5, 5, 6])
     r = stref.Ref()
     lines = ['univ %d' % U]
-    val = (lambda: 0) if zero else (lambda: rng.randrange(0, 5))
     if contig:
         l = 'batch 0 ' + ' '.join(map(str, range(U))); lines.append(l); r.batch(0, list(range(U)))
     n = rng.randrange(3, maxlen)
     for _ in range(n):
-        x = rng.random()
-        line = None
-        if x < 0.40:
-            k = rng.choice([1, 2, 2, 3, 3, 4]) if U >= 4 else rng.choice([1, 2, 3])
-            s = sorted(rng.sample(range(U), min(k, U)))
-            f = val()
-            line = 'insf %d %s' % (f, ' '.join(map(str, s))); r.insf(f, s)
-        elif x < 0.55:
-            # single simplex whose facets are all present, value not below them
-            cands = []
-            for k in (1, 2, 3):
-                for s in itertools.combinations(range(U), k):
-                    if all(s[:i] + s[i + 1:] in r.c for i in range(len(s))) or k == 1:
-                        cands.append(s)
-            if not cands: continue
-            s = rng.choice(cands)
-            lo = max([r.c[s[:i] + s[i + 1:]] for i in range(len(s))], default=0) if len(s) > 1 else 0
-            hi = min([v for t, v in r.c.items() if set(s) < set(t)], default=4)
-            if lo > hi: continue
-            f = 0 if zero else rng.randrange(lo, hi + 1)
-            line = 'ins %d %s' % (f, ' '.join(map(str, s))); r.ins(f, s)
-        elif x < 0.60:
-            vs = sorted(rng.sample(range(U), rng.randrange(1, U + 1)))
-            if contig: vs = list(range(U))
-            f = 0 if (zero or contig) else val()
-            # keep monotone: a new vertex must not get a value above its (absent) cofaces - new vertices have none
-            line = 'batch %d %s' % (f, ' '.join(map(str, vs))); r.batch(f, vs)
-        elif x < 0.78:
-            mx = [s for s in r.maximal() if not (contig and len(s) == 1)]
-            if not mx: continue
-            s = rng.choice(mx)
-            line = 'rmmax ' + ' '.join(map(str, s)); r.rmmax(s)
-        elif x < 0.87:
-            f = rng.randrange(0, 5)
-            line = 'prunef %d' % f; r.prunef(f)
-        elif x < 0.95:
-            d = rng.choice([0, 1, 1, 2, 3])
-            line = 'pruned %d' % d; r.pruned(d)
-        else:
-            if contig: continue
-            line = 'clear'; r.clear()
+        line = gen_mut(rng, r, U, contig, zero)
+        if line is None: continue
         lines.append(line)
         if rng.random() < obs_p: lines.append('obs')
     if lines[-1] != 'obs': lines.append('obs')
